@@ -1665,6 +1665,14 @@ class FlowProposal(RejectionProposal):
         if weights_file is not None:
             if os.path.exists(weights_file):
                 self.flow.reload_weights(weights_file)
+            elif os.path.exists(weights_file + ".old"):
+                # Sampler was killed after the previous weights were moved but
+                # before the new weights were written, see `save_weights`.
+                logger.warning(
+                    f"Weights file {weights_file} is missing, using "
+                    f"{weights_file}.old"
+                )
+                self.flow.reload_weights(weights_file + ".old")
         else:
             logger.warning("Could not reload weights for flow")
 
